@@ -56,7 +56,13 @@ fn det(case: &Case, rep: &mut Report) {
     let mut scenario = 0u64;
     for (ei, ex) in case.execs.iter().enumerate() {
         let reads_before = crate::clock::TASK_READS.load(std::sync::atomic::Ordering::Relaxed);
+        let decoys_before = crate::clock::DECOYS_WRITTEN.load(std::sync::atomic::Ordering::Relaxed);
         let res = run_exec(ex, &case.fss);
+        let decoys = crate::clock::DECOYS_WRITTEN.load(std::sync::atomic::Ordering::Relaxed) - decoys_before;
+        if decoys > 0 {
+            rep.count("executions_with_decoy_files_on_disk", 1);
+            rep.count("decoy_files_planted", decoys);
+        }
         let reads = crate::clock::TASK_READS.load(std::sync::atomic::Ordering::Relaxed) - reads_before;
         rep.count("executions_under_simulated_clock_and_environment", 1);
         if reads > 0 {
